@@ -4,12 +4,14 @@ import Acra.Drv.Float
 import Acra.Drv.Search
 import Acra.Drv.Mpeg
 import Acra.Drv.Ch10
+import Acra.Drv.Net
 namespace Acra.Drv
 def allCodecs : List Codec := List.flatten [
   ftiCodecs,
   fti2Codecs,
   Mpeg.mpegCodecs,
-  ch10Codecs
+  ch10Codecs,
+  netCodecs
 ]
 def allFuncs : List Func := List.flatten [
   ftiFuncs,
@@ -17,6 +19,7 @@ def allFuncs : List Func := List.flatten [
   floatFuncs,
   searchFuncs,
   Mpeg.mpegFuncs,
-  ch10Funcs
+  ch10Funcs,
+  netFuncs
 ]
 end Acra.Drv
